@@ -597,3 +597,29 @@ def sharded_conformance(chk, driver, cfgs, trace_spec, tier, seed, tag, nshards=
         ev = evs[p[1] - 1]
         results.append(("reject", scfg[ev["c"] - 1], ev, p[2]))
   return results, all_events
+
+
+# ----------------------------------------------------------------------------------------------------------------
+# TLC -simulate: behaviours as lists of (action label, action args, state dict)
+# ----------------------------------------------------------------------------------------------------------------
+
+def simulate(module, cfg, num, depth, seed, workers=1):
+  d = tempfile.mkdtemp(prefix="sim_", dir=scratch_root())
+  res = run_tlc(module, cfg, workers=workers, simulate="file=%s/tr,num=%d" % (d, num), depth=depth, seed=seed)
+  behaviours = []
+  for fn in sorted(os.listdir(d)):
+    if not fn.startswith("tr_"):
+      continue
+    txt = open(os.path.join(d, fn)).read()
+    steps = []
+    for m in re.finditer(r"\\\* <(\w+)(\(([^>]*?)\))? line [^>]*>\s*\nSTATE_\d+ ==\s*\n(.*?)(?=\n\n\\\*|\n=+|\Z)", txt, re.S):
+      label, args, body = m.group(1), m.group(3), m.group(4)
+      state = {}
+      for vm in re.finditer(r"^/\\ (\w+) = (.*?)(?=^/\\ \w+ = |\Z)", body, re.S | re.M):
+        state[vm.group(1)] = parse_tla_value(vm.group(2).strip())
+      a = [parse_tla_value(x.strip()) for x in args.split(",")] if args else []
+      steps.append((label, a, state))
+    if steps:
+      behaviours.append(steps)
+  shutil.rmtree(d, ignore_errors=True)
+  return behaviours, res
